@@ -196,7 +196,7 @@ PROPS = {
                      'Cqos.C10.c10_interval_v1', 'Cqos.C10.f_step', 'Cqos.C10.f_run', 'Cqos.C10.c10_passAt_le_oldest',
                      'Cqos.C10.c10_flush', 'Cqos.Facts.c10_one_ticker', 'Cqos.Facts.glueJoin'],
         'runs': [{'cmd': 'pure', 'args': ['-family', 'c10']}, {'cmd': 'jstepper', 'args': ['-family', 'mixed']},
-                 {'cmd': 'blackbox', 'args': ['-scenario', 'join']}],
+                 {'cmd': 'blackbox', 'args': ['-scenario', 'join,joinshared']}],
         'monitor_prefix': ['C10'],
         'level': 'proof',
         'level_text': ('Lean theorems: the interrupt interval tau satisfies 1 <= tau, tau*floor(100/inacc) <= Timeout, '
